@@ -126,24 +126,34 @@ def run(chk):
   # BuildTreeForCombine asks ParseConjunction for that (siblings agree)
   pm = repo.by_name('parse')
   n_body = 0
+  known = set((__import__('sa.roles', fromlist=['x']).reference().get(pm.relpath) or {}))
   for q, fi_ in sorted(pm.funcs.items()):
-    if not any(isinstance(c, ast.Call) and call_tail(c) == 'BuildTreeForCombine'
-               for c in walk_local(fi_.node)):
+    if fi_.parent is not None or not any(
+        isinstance(c, ast.Call) and call_tail(c) == 'BuildTreeForCombine'
+        for c in walk_local(fi_.node)):
       continue
-    w = FnView.of(repo, fi_)
-    for n, c in w.all_calls():
-      if call_tail(c) != 'BuildTreeForCombine' or len(c.args) < 3:
-        continue
-      body = w.expand(c.args[2], 3)
-      for pc in ast.walk(body):
-        if isinstance(pc, ast.Call) and call_tail(pc) == 'ParseConjunction':
-          n_body += 1
-          flag = kwarg(pc, 'allow_singleton', 1)
-          chk.ob('C11-R1', isinstance(flag, ast.Constant) and flag.value is True, None,
-                 '%s parses the body of the combine as a conjunction of one or more conjuncts' % q,
-                 '`%s`: a body with exactly one conjunct parses to None and the combine is built '
-                 'without its body - `Sum{1 :- P(x)}` aggregates over nothing while the long '
-                 '`combine` form and `~P(x)` keep the body' % norm(pc, 60), fi=fi_, node=c)
+    # the function itself and the helpers it calls that are new with respect
+    # to the reference (an extracted `ParseCombineBody(body)`)
+    group = [fi_]
+    for c in walk_local(fi_.node):
+      if isinstance(c, ast.Call) and isinstance(c.func, ast.Name) and c.func.id in pm.funcs \
+          and c.func.id not in known and pm.funcs[c.func.id] not in group:
+        group.append(pm.funcs[c.func.id])
+    sites = [(g, pc) for g in group for pc in walk_local(g.node)
+             if isinstance(pc, ast.Call) and call_tail(pc) == 'ParseConjunction']
+    for g, pc in sites:
+      n_body += 1
+      flag = kwarg(pc, 'allow_singleton', 1)
+      if isinstance(flag, ast.Name) and g is not fi_:
+        # forwarded parameter of the helper: what the call site passes
+        for c in walk_local(fi_.node):
+          if isinstance(c, ast.Call) and call_tail(c) == g.name:
+            flag = kwarg(c, flag.id, g.params.index(flag.id) if flag.id in g.params else 99) or flag
+      chk.ob('C11-R1', isinstance(flag, ast.Constant) and flag.value is True, None,
+             '%s parses the body of the combine as a conjunction of one or more conjuncts' % q,
+             '`%s`: a body with exactly one conjunct parses to None and the combine is built '
+             'without its body - `Sum{1 :- P(x)}` aggregates over nothing while the long '
+             '`combine` form and `~P(x)` keep the body' % norm(pc, 60), fi=g, node=pc)
   if n_body < 3:
     raise AnalysisError('bodies of combines: %d ParseConjunction sites recognised' % n_body)
   # the result dict of BuildTreeForCombine vs the combine inside NegationTree
